@@ -67,7 +67,22 @@ def holderJ (h : Holder) : Json :=
                            ("is_file_directive", subExact jb h.isFileDirective),
                            ("directive_type", subExact (jopt jn) h.pduDirectiveType)])]
 
+/-- one line per kind: build the object from the constructor arguments of the owning Ops module -/
+def getAny (j : Json) : R (Py AnyPdu) := do
+  match ← kindOfNat (← getNat j "kind") with
+  | .fileData => do let x ← Ops.FileData.getPdu j; pure (AnyPdu.fileData <$> x)
+  | .ack => do let x ← Ops.DirectiveFixed.getAck j; pure (AnyPdu.ack <$> x)
+  | .nak => do let x ← Ops.DirectiveFixed.getNak j; pure (AnyPdu.nak <$> x)
+  | .prompt => do let x ← Ops.DirectiveFixed.getPrompt j; pure (AnyPdu.prompt <$> x)
+  | .keepAlive => do let x ← Ops.DirectiveFixed.getKa j; pure (AnyPdu.keepAlive <$> x)
+  | _ => .error "kind without a model"
+
 def ops : List (String × Handler) := [
+  -- construct, pack, hand `packed ++ suffix` to the factory
+  ("fac_roundtrip", fun j => do
+      let p ← getAny j
+      let sfx ← getHex j "suffix"
+      pure (res optPduJ (do let p ← p; let raw ← p.pack; fromRawSfx raw sfx))),
   ("fac_from_raw", fun j => do
       pure (res optPduJ (fromRawSfx (← getHex j "raw") (← getHex j "suffix")))),
   ("fac_inspect", fun j => do
